@@ -219,12 +219,13 @@ def ws_session(seed):
     carrier = rng.choice(["h11", "h2"])
     nmsgs = rng.choice([0, 1, 3])
     crash = rng.choice([None, None, None, 0, 1]) if nmsgs else None
-    closer = rng.choice(["app", "client", "client", "reject", "eof"])
-    script = ws_script(rng, nmsgs, crash, closer)
-    desc = {"seed": seed, "carrier": "ws-" + carrier, "closer": closer, "crash": crash, "msgs": nmsgs}
+    closer = rng.choice(["app", "client", "client", "reject", "eof", "break", "break"])
+    worker = rng.choice(["asyncio", "trio"])
+    script = ws_script(rng, nmsgs, crash, "eof" if closer == "break" else closer)
+    desc = {"seed": seed, "carrier": "ws-" + carrier, "closer": closer, "crash": crash, "msgs": nmsgs, "worker": worker}
     log = AccessLog([])
     with StreamCounter() as counter:
-        ws = W.WsSession(carrier, script, policy=rng.choice(["fifo", "random"]), seed=seed)
+        ws = W.WsSession(carrier, script, policy=rng.choice(["fifo", "random", "lifo"]), seed=seed, worker=worker)
         ws.rig.config._log = log
         driver = ws.driver
         ws.open()
@@ -243,6 +244,12 @@ def ws_session(seed):
                 pass
         elif closer == "eof":
             ws.eof()
+        elif closer == "break":
+            # the transport breaks: the application's next write fails, and the reader learns of it at the same time or
+            # a little later - both paths tell the stream that it is closed
+            ws.rig.transport.fail_after = rng.choice([0, 0, 1])
+            if rng.random() < 0.7:
+                ws.eof()
         for _ in range(12):
             ws.rig.run(advance_time=False)
             if not driver.advance_one():
